@@ -1,11 +1,12 @@
 from common import COMMON_TRUST
-from wt_common import WT_LEAN, WT_TRUST, wt_engine
+from wt_common import WT_LEAN, WT_TRUST, wt_engine, e2e_engine, E2E_TRUST
 
 PROP = {
     "generated": [],
     "lean_modules": WT_LEAN + ["SwimVerif.Proofs.MapQueue", "SwimVerif.Proofs.AgentMapQueue",
                                "SwimVerif.Model.MapLane", "SwimVerif.Model.EpochQueue"],
     "engines": [
+        e2e_engine("C02"),
         wt_engine("C02"),
         {"name": "ml", "crate": "core", "bin": "sv-ml", "machine": "ml", "reasons": r"map-.*|lane-map-.*|write-result-.*|unparsable.*",
          "cases": {"quick": 3000, "thorough": 300000}, "min_shard": 500, "nontrivial_min_ops": 6},
@@ -26,6 +27,6 @@ PROP = {
     "level_note": "Index-invariant => specification refinement for the wrapping epochs, per-key sampling and the "
                   "take/drop key-order statement are open as theorems (checked by execution/monitor). Recon key "
                   "equality is represented by key classes validated against compare_recon_values at harness start.",
-    "trusted_base": COMMON_TRUST + WT_TRUST,
+    "trusted_base": COMMON_TRUST + WT_TRUST + E2E_TRUST,
     "assumptions": ["queues hold fewer than 2^64 entries", "Ord on keys agrees with the Recon order (take/drop)"],
 }
